@@ -115,54 +115,51 @@ RecvEnds(I) == Cat([r \in Ranks(I) |-> RecvEndsOfRank(I, r)], 1)
 SId(s) == <<s.rank, s.e.dst, s.e.sym>>
 RId(v) == <<v.e.src, v.rank, v.e.sym>>
 
+\* (S, V: SendEnds(I), RecvEnds(I), computed once per record by Clauses)
+
 \* the partition contains every communication end of the program exactly
 \* once (the ends found in the original DAGs by the reflective walk)
-Complete(I) ==
-  LET S == SendEnds(I) V == RecvEnds(I)
-  IN /\ Len(S) = Len(I.ends.sends) /\ Len(V) = Len(I.ends.recvs)
-     /\ \A m \in {SId(S[k]) : k \in DOMAIN S} \cup
-                 {<<I.ends.sends[k].rank, I.ends.sends[k].dst, I.ends.sends[k].sym>> :
-                    k \in DOMAIN I.ends.sends} :
-          Cardinality({k \in DOMAIN S : SId(S[k]) = m}) =
-          Cardinality({k \in DOMAIN I.ends.sends :
-             <<I.ends.sends[k].rank, I.ends.sends[k].dst, I.ends.sends[k].sym>> = m})
-     /\ \A m \in {RId(V[k]) : k \in DOMAIN V} \cup
-                 {<<I.ends.recvs[k].src, I.ends.recvs[k].rank, I.ends.recvs[k].sym>> :
-                    k \in DOMAIN I.ends.recvs} :
-          Cardinality({k \in DOMAIN V : RId(V[k]) = m}) =
-          Cardinality({k \in DOMAIN I.ends.recvs :
-             <<I.ends.recvs[k].src, I.ends.recvs[k].rank, I.ends.recvs[k].sym>> = m})
+Complete(I, S, V) ==
+  /\ Len(S) = Len(I.ends.sends) /\ Len(V) = Len(I.ends.recvs)
+  /\ \A m \in {SId(S[k]) : k \in DOMAIN S} \cup
+              {<<I.ends.sends[k].rank, I.ends.sends[k].dst, I.ends.sends[k].sym>> :
+                 k \in DOMAIN I.ends.sends} :
+       Cardinality({k \in DOMAIN S : SId(S[k]) = m}) =
+       Cardinality({k \in DOMAIN I.ends.sends :
+          <<I.ends.sends[k].rank, I.ends.sends[k].dst, I.ends.sends[k].sym>> = m})
+  /\ \A m \in {RId(V[k]) : k \in DOMAIN V} \cup
+              {<<I.ends.recvs[k].src, I.ends.recvs[k].rank, I.ends.recvs[k].sym>> :
+                 k \in DOMAIN I.ends.recvs} :
+       Cardinality({k \in DOMAIN V : RId(V[k]) = m}) =
+       Cardinality({k \in DOMAIN I.ends.recvs :
+          <<I.ends.recvs[k].src, I.ends.recvs[k].rank, I.ends.recvs[k].sym>> = m})
 
 \* every message has exactly one send end and one receive end
-Matched(I) ==
-  LET S == SendEnds(I) V == RecvEnds(I)
-  IN /\ \A k \in DOMAIN S : Cardinality({j \in DOMAIN V : RId(V[j]) = SId(S[k])}) = 1
-     /\ \A j \in DOMAIN V : Cardinality({k \in DOMAIN S : SId(S[k]) = RId(V[j])}) = 1
-     /\ Injective([k \in DOMAIN S |-> SId(S[k])])
-     /\ Injective([j \in DOMAIN V |-> RId(V[j])])
+Matched(I, S, V) ==
+  /\ \A k \in DOMAIN S : Cardinality({j \in DOMAIN V : RId(V[j]) = SId(S[k])}) = 1
+  /\ \A j \in DOMAIN V : Cardinality({k \in DOMAIN S : SId(S[k]) = RId(V[j])}) = 1
+  /\ Injective([k \in DOMAIN S |-> SId(S[k])])
+  /\ Injective([j \in DOMAIN V |-> RId(V[j])])
 
 \* number_distributed_tags: both ends of a message carry the same integer;
 \* distinct messages between the same pair of ranks carry distinct integers;
 \* all integers are >= the base tag and below next_tag, which all ranks agree on
-TagsAgree(I) ==
-  LET S == SendEnds(I) V == RecvEnds(I)
-  IN /\ \A k \in DOMAIN S : \A j \in DOMAIN V :
-          SId(S[k]) = RId(V[j]) => S[k].e.tag = V[j].e.tag
-     /\ \A k \in DOMAIN S : S[k].e.tag >= I.base_tag /\ S[k].e.tag < I.ranks[1].next_tag
-     /\ \A j \in DOMAIN V : V[j].e.tag >= I.base_tag /\ V[j].e.tag < I.ranks[1].next_tag
-TagsDistinct(I) ==
-  LET S == SendEnds(I) V == RecvEnds(I)
-  IN /\ \A k1, k2 \in DOMAIN S :
-          (S[k1].rank = S[k2].rank /\ S[k1].e.dst = S[k2].e.dst /\ SId(S[k1]) # SId(S[k2]))
-          => S[k1].e.tag # S[k2].e.tag
-     /\ \A j1, j2 \in DOMAIN V :
-          (V[j1].rank = V[j2].rank /\ V[j1].e.src = V[j2].e.src /\ RId(V[j1]) # RId(V[j2]))
-          => V[j1].e.tag # V[j2].e.tag
+TagsAgree(I, S, V) ==
+  /\ \A k \in DOMAIN S : \A j \in DOMAIN V :
+       SId(S[k]) = RId(V[j]) => S[k].e.tag = V[j].e.tag
+  /\ \A k \in DOMAIN S : S[k].e.tag >= I.base_tag /\ S[k].e.tag < I.ranks[1].next_tag
+  /\ \A j \in DOMAIN V : V[j].e.tag >= I.base_tag /\ V[j].e.tag < I.ranks[1].next_tag
+TagsDistinct(I, S, V) ==
+  /\ \A k1, k2 \in DOMAIN S :
+       (S[k1].rank = S[k2].rank /\ S[k1].e.dst = S[k2].e.dst /\ SId(S[k1]) # SId(S[k2]))
+       => S[k1].e.tag # S[k2].e.tag
+  /\ \A j1, j2 \in DOMAIN V :
+       (V[j1].rank = V[j2].rank /\ V[j1].e.src = V[j2].e.src /\ RId(V[j1]) # RId(V[j2]))
+       => V[j1].e.tag # V[j2].e.tag
 NextTagAgrees(I) == \A r \in Ranks(I) : I.ranks[r].next_tag = I.ranks[1].next_tag
-BuffersAgree(I) ==
-  LET S == SendEnds(I) V == RecvEnds(I)
-  IN \A k \in DOMAIN S : \A j \in DOMAIN V :
-        SId(S[k]) = RId(V[j]) => S[k].e.shape = V[j].e.shape /\ S[k].e.dtype = V[j].e.dtype
+BuffersAgree(I, S, V) ==
+  \A k \in DOMAIN S : \A j \in DOMAIN V :
+     SId(S[k]) = RId(V[j]) => S[k].e.shape = V[j].e.shape /\ S[k].e.dtype = V[j].e.dtype
 
 (* RoundsAgree: the number and order of communication rounds is identical   *)
 (* on all ranks, stated without reference to the algorithm: there is ONE    *)
@@ -176,52 +173,57 @@ BuffersAgree(I) ==
 (* of rounds.  The witness is the least solution of these difference        *)
 (* constraints (RoundsWitness); RoundsAgreeBrute searches all assignments   *)
 (* and is used to cross-check the witness construction on small instances.  *)
-MsgSet(I) == {SId(SendEnds(I)[k]) : k \in DOMAIN SendEnds(I)} \cup
-             {RId(RecvEnds(I)[k]) : k \in DOMAIN RecvEnds(I)}
-SentBy(I, r, p) == {SId(SendEnds(I)[k]) : k \in {j \in DOMAIN SendEnds(I) :
-                       SendEnds(I)[j].rank = r - 1 /\ SendEnds(I)[j].part = p}}
-RecvdBy(I, r, p) == {RId(RecvEnds(I)[k]) : k \in {j \in DOMAIN RecvEnds(I) :
-                       RecvEnds(I)[j].rank = r - 1 /\ RecvEnds(I)[j].part = p}}
+MsgSet(S, V) == {SId(S[k]) : k \in DOMAIN S} \cup {RId(V[k]) : k \in DOMAIN V}
+SentBy(S, r, p) == {SId(S[k]) : k \in {j \in DOMAIN S : S[j].rank = r - 1 /\ S[j].part = p}}
+RecvdBy(V, r, p) == {RId(V[k]) : k \in {j \in DOMAIN V : V[j].rank = r - 1 /\ V[j].part = p}}
 \* pairs <<a, b>> with round(a) < round(b) required, resp. round(a) = round(b)
-Less(I) ==
+Less(I, S, V) ==
   UNION {UNION {
-    (RecvdBy(I, r, p) \X UNION {SentBy(I, r, q) : q \in {q \in Pids(I.ranks[r]) :
+    (RecvdBy(V, r, p) \X UNION {SentBy(S, r, q) : q \in {q \in Pids(I.ranks[r]) :
                                    q = p \/ p \in Before(I.ranks[r], q)}})
     \cup
-    (SentBy(I, r, p) \X UNION {SentBy(I, r, q) : q \in {q \in Pids(I.ranks[r]) :
+    (SentBy(S, r, p) \X UNION {SentBy(S, r, q) : q \in {q \in Pids(I.ranks[r]) :
                                    p \in Before(I.ranks[r], q)}})
     : p \in Pids(I.ranks[r])} : r \in Ranks(I)}
-Equal(I) == UNION {UNION {SentBy(I, r, p) \X SentBy(I, r, p) : p \in Pids(I.ranks[r])} :
-                     r \in Ranks(I)}
-RoundsOK(I, round) ==
-  /\ \A pr \in Less(I) : round[pr[1]] < round[pr[2]]
-  /\ \A pr \in Equal(I) : round[pr[1]] = round[pr[2]]
-MaxOf(S) == CHOOSE x \in S : \A y \in S : y <= x
+Equal(I, S) == UNION {UNION {SentBy(S, r, p) \X SentBy(S, r, p) : p \in Pids(I.ranks[r])} :
+                        r \in Ranks(I)}
+RoundsOK(less, equal, round) ==
+  /\ \A pr \in less : round[pr[1]] < round[pr[2]]
+  /\ \A pr \in equal : round[pr[1]] = round[pr[2]]
+MaxOf(X) == CHOOSE x \in X : \A y \in X : y <= x
 RECURSIVE Lfp(_, _, _, _, _)
 Lfp(M, less, equal, f, k) ==
   LET g == [m \in M |-> MaxOf({f[m]} \cup {f[pr[1]] + 1 : pr \in {q \in less : q[2] = m}}
                                      \cup {f[pr[1]] : pr \in {q \in equal : q[2] = m}})]
   IN IF g = f \/ k = 0 THEN g ELSE Lfp(M, less, equal, g, k - 1)
-RoundsWitness(I) == LET M == MsgSet(I)
-                    IN Lfp(M, Less(I), Equal(I), [m \in M |-> 1],
-                           Cardinality(M) * Cardinality(M) + 1)
-RoundsAgree(I) == \E round \in {RoundsWitness(I)} :
-                     /\ RoundsOK(I, round)
-                     /\ \A m \in MsgSet(I) : round[m] <= Cardinality(MsgSet(I))
-RoundsAgreeBrute(I) == \E round \in [MsgSet(I) -> 1..Cardinality(MsgSet(I))] : RoundsOK(I, round)
-RoundsSelfCheck(I) == Cardinality(MsgSet(I)) <= 4 => (RoundsAgree(I) <=> RoundsAgreeBrute(I))
-NRounds(I) == IF MsgSet(I) = {} THEN 0 ELSE MaxOf({RoundsWitness(I)[m] : m \in MsgSet(I)})
+RoundsWitness(M, less, equal) ==
+  Lfp(M, less, equal, [m \in M |-> 1], Cardinality(M) * Cardinality(M) + 1)
+RoundsAgreeW(M, less, equal, w) == \E round \in {w} :
+                                     /\ RoundsOK(less, equal, round)
+                                     /\ \A m \in M : round[m] <= Cardinality(M)
+RoundsAgreeBrute(M, less, equal) ==
+  \E round \in [M -> 1..Cardinality(M)] : RoundsOK(less, equal, round)
+NRoundsW(M, w) == IF M = {} THEN 0 ELSE MaxOf({w[m] : m \in M})
 
 VerifyAccepts(I) == \A r \in Ranks(I) : I.verify[r] = "ok"
 
 (* ------------------------------ verdict ------------------------------ *)
-Clauses(I) ==
+\* -> <<failing clauses, number of rounds>>
+Judge(I) ==
   LET perRank(P(_)) == \A r \in Ranks(I) : P(I.ranks[r])
       wf == perRank(PidsOK)
   IN
-  IF ~wf THEN <<"pids">>
+  IF ~wf THEN <<<<"pids">>, 0>>
   ELSE
-  SelectSeq(<<
+  LET S == SendEnds(I)
+      V == RecvEnds(I)
+      M == MsgSet(S, V)
+      less == Less(I, S, V)
+      equal == Equal(I, S)
+      w == RoundsWitness(M, less, equal)
+      rounds == RoundsAgreeW(M, less, equal, w)
+  IN
+  <<SelectSeq(<<
     IF perRank(Acyclic) THEN "" ELSE "acyclic",
     IF perRank(ProducedOnce) THEN "" ELSE "produced_once",
     IF perRank(OverallOK) THEN "" ELSE "overall",
@@ -233,18 +235,19 @@ Clauses(I) ==
     IF perRank(SendIsNamedArray) THEN "" ELSE "send_is_named_array",
     IF perRank(NoCommInside) THEN "" ELSE "no_comm_inside",
     IF perRank(Defined) THEN "" ELSE "defined",
-    IF Complete(I) THEN "" ELSE "complete",
-    IF Matched(I) THEN "" ELSE "matched",
-    IF TagsAgree(I) THEN "" ELSE "tags_agree",
-    IF TagsDistinct(I) THEN "" ELSE "tags_distinct",
+    IF Complete(I, S, V) THEN "" ELSE "complete",
+    IF Matched(I, S, V) THEN "" ELSE "matched",
+    IF TagsAgree(I, S, V) THEN "" ELSE "tags_agree",
+    IF TagsDistinct(I, S, V) THEN "" ELSE "tags_distinct",
     IF NextTagAgrees(I) THEN "" ELSE "next_tag",
-    IF BuffersAgree(I) THEN "" ELSE "buffers_agree",
-    IF RoundsAgree(I) THEN "" ELSE "rounds_agree",
-    IF RoundsSelfCheck(I) THEN "" ELSE "MACHINERY_rounds_selfcheck",
+    IF BuffersAgree(I, S, V) THEN "" ELSE "buffers_agree",
+    IF rounds THEN "" ELSE "rounds_agree",
+    IF Cardinality(M) <= 4 => (rounds <=> RoundsAgreeBrute(M, less, equal))
+      THEN "" ELSE "MACHINERY_rounds_selfcheck",
     IF VerifyAccepts(I) THEN "" ELSE "verify_accepts"
-  >>, LAMBDA c : c # "")
+  >>, LAMBDA c : c # ""), NRoundsW(M, w)>>
 
-Verdict == LET I == Batch[rec] c == Clauses(I)
-           IN IF c = <<>> THEN PrintT(<<"V", I.id, "ok", NRounds(I)>>)
-              ELSE PrintT(<<"V", I.id, "bad", c>>)
+Verdict == LET I == Batch[rec] j == Judge(I)
+           IN IF j[1] = <<>> THEN PrintT(<<"V", I.id, "ok", j[2]>>)
+              ELSE PrintT(<<"V", I.id, "bad", j[1]>>)
 =============================================================================
